@@ -29,7 +29,7 @@ def corpus():
 
 
 def generate(rng, tier):
-    n = 300 if tier == "quick" else 5000
+    n = 300 if tier == "quick" else 25000
     for _ in range(n):
         nd = rng.choice([1, 2, 2, 3])
         shape = [rng.randint(5, 8) for _ in range(nd)]
